@@ -941,6 +941,11 @@ static int32_t tls13ParseHandshakeMessage(ssl_t *ssl,
         *bufStart += hsMsgLen + TLS_HS_HDR_LEN;
         /* End of the single handshake message */
         msgEnd = msgStart + hsMsgLen + TLS_HS_HDR_LEN;
+        /* The message parsers get this message and nothing behind it: what
+           follows in the record belongs to the next message, and the
+           lengths recorded for the transcript (ClientHello, binders) are
+           those of the message as announced in its header. */
+        pb.buf.end = msgEnd;
     }
 
     /* Check that message type is valid for the current state. */
